@@ -908,6 +908,26 @@ def rule_shift_order(ctx, p, cfg, rid="R1"):
             else:
                 r.require(m["desc"], "iterator-type", fn=rot, detail="hand-written countdown by one, variable updated once per iteration, before every use or after the move")
             c = mv_sites[0]
+            # a step that fails ends the shift: the step below it would otherwise move its archive onto the one that could
+            # not move.  The step's result is looked at inside the loop and its failure edge cannot come back to the loop.
+            stops = []
+            for blk in rot.blocks:
+                if blk["term"]["k"] != "switch" or blk["id"] not in rot.reachable_blocks():
+                    continue
+                si_ = SwitchInfo(rot, blk["id"])
+                d_ = strip(si_.discr)
+                if d_[0] != "discr":
+                    continue
+                inner_ = strip(d_[1])
+                if inner_[0] == "call" and inner_[1].endswith("Try::branch") and inner_[2]:
+                    inner_ = strip(inner_[2][0])
+                if inner_[0] == "call" and len(inner_) > 3 and inner_[3] == c.block:
+                    good_ = {(blk["id"], t_) for lab_, t_ in si_.labelled_edges() if lab_ in ("Ok", "Continue")}
+                    stops.append((blk["id"], good_))
+            heads_ = {h.block if hasattr(h, "block") else h for h in heads}
+            r.require(bool(stops) and not any(q.const_skipping_paths(rot, sb_, set(), heads_, cut_edges=cut_) for sb_, cut_ in stops), "failed-step-ends-the-shift", fn=rot, site=c.at,
+                      detail="the in-loop move's result is tested and its failure edge does not return to the loop",
+                      fail_detail="after a move that failed the shift goes on to the next index: the archive below is then moved onto the one that could not move, and a retained archive is overwritten")
             src, dst = index_of(c.arg(0)), index_of(c.arg(1))
             r.require(src is not None and dst is not None, "paths-from-pattern", fn=rot, site=c.at, detail="src/dst are pattern.replace(\"{}\", index)")
             if src and dst:
